@@ -297,7 +297,7 @@ PROPS["C08"] = {
 # debug assertions on) at reduced scale and turns every panic / internal-assertion error their call wrappers
 # recorded into a C03 violation keyed by panic location.
 
-HARVEST_QUICK = ["C01", "C04", "C05", "C06", "C07", "C08", "C09", "C10", "C11", "C12", "C13", "C14", "C15", "C17", "C18"]
+HARVEST_QUICK = ["C01", "C04", "C05", "C06", "C07", "C08", "C09", "C10", "C11", "C12", "C13", "C14", "C15", "C17", "C18", "C19"]
 HARVEST_THOROUGH = HARVEST_QUICK + ["C16"]
 
 
@@ -377,6 +377,26 @@ PROPS["C03"] = {
         "technique": "runtime monitoring: catch_unwind call wrappers over an API storm and over every other monitor's workload in an overflow-checking, debug-asserting build; broken calls keyed by panic location",
         "text": "Every call the harness makes into the crate runs under catch_unwind in a build with integer-overflow checks and debug assertions; panics and internal-assertion errors are recorded with their source location. C03 drives a dedicated storm (arbitrary strings into every parser, hostile finite arguments and random option combinations into every public method, pathological provider tables) and additionally harvests the records of all other monitors' workloads. A clean run means none of the calls made broke; calls not made are not covered.",
         "note": "The FFI layer's calls are exercised by C19's workload; memory-safety tooling (Miri) is a separate leg of C19/C20 where unsafe code is reached.",
+    },
+}
+
+PROPS["C19"] = {
+    "builds": ["chk", "rel"],
+    "rule": ("seeded cases over ten scenarios; FFI layer (temporal_capi called from Rust, values observed through its own accessors): PlainTime, PlainDate (+ the Calendar object's "
+             "per-date accessors, date_from_partial / year_month_from_partial / month_day_from_partial / date_add / date_until), PlainDateTime, Duration / TimeDuration / DateDuration / "
+             "PartialDuration, Instant (incl. both 64-bit halves of the nanosecond value), PlainYearMonth, PlainMonthDay, Calendar::from_utf8 - every function is called next to the "
+             "temporal_rs method it names with the same generated arguments (valid and invalid field values, eight calendars, partial records with random field subsets, every Unit / "
+             "RoundingMode / ArithmeticOverflow / DisplayCalendar variant, Precision records, increments incl. 0 and 1e9); compiled-data layer: every ZonedDateTime accessor and method, "
+             "from_str, RelativeTo::try_from_str, Duration::round / total / compare with none / plain / zoned relativeTo, Instant::to_ixdtf_string, PlainDateTime::to_zoned_date_time next "
+             "to the *_with_provider twin on a separate FsTzdbProvider, ten zones, instants around DST transitions. Equal value or equal error kind is required; the number of distinct "
+             "functions paired is recorded (functions_paired_in_this_shard; all scenarios run in every shard)"),
+    "assumptions": ["the core method is the oracle (its own correctness is the subject of the other properties)",
+                    "Now::* wrappers read the system clock and are not paired; PlainDate::to_zoned_date_time of src/builtins/compiled/date.rs is not compiled into the crate",
+                    "the generated C/C++ headers are not exercised, only the extern functions' Rust bodies they bind to"],
+    "manifest": {
+        "technique": "runtime monitoring: differential pairing of every wrapper call with the core call it stands for (value through accessors, or error kind), two builds",
+        "text": "Each convenience-API method and each FFI function is executed next to the core method it forwards to, with the same generated receiver, arguments and option variants, and the two outcomes must agree. Accessors are compared on values whose fields differ, so a wrapper wired to a neighbouring field shows. The evidence lists how many distinct functions were paired.",
+        "note": "Trusted: the core (verified by the other checks). A pair in which either side panics is counted inconclusive here and reported by C03.",
     },
 }
 
